@@ -869,3 +869,41 @@ func ContextSwapPairs(maxPairs int) [][2]GenDoc {
 	}
 	return out
 }
+
+// EmbedPages: articles full of embeds from alternating sites (YouTube, youtube-nocookie, Vimeo,
+// Twitter, third-party widgets, plain iframes), each page with its own addresses.
+func EmbedPages(n int) []GenDoc {
+	var out []GenDoc
+	for pg := 0; pg < n; pg++ {
+		var sb strings.Builder
+		fmt.Fprintf(&sb, "<html><head><title>Embeds %d</title></head><body><div id=\"content\"><h1>Embeds %d</h1>\n", pg, pg)
+		for i := 0; i < 40; i++ {
+			if i%3 == 0 {
+				sb.WriteString("<p>")
+				for w := 0; w < 35; w++ {
+					fmt.Fprintf(&sb, "em%d_%d ", pg, i*35+w)
+				}
+				sb.WriteString("</p>\n")
+			}
+			switch (i + pg) % 7 {
+			case 0:
+				fmt.Fprintf(&sb, `<iframe src="https://www.youtube.com/embed/yt%d_%d?start=%d" width="560" height="315"></iframe>`+"\n", pg, i, i)
+			case 1:
+				fmt.Fprintf(&sb, `<iframe src="https://player.vimeo.com/video/%d%03d?title=0"></iframe>`+"\n", pg+1, i)
+			case 2:
+				fmt.Fprintf(&sb, `<iframe src="https://www.youtube-nocookie.com/embed/nc%d_%d"></iframe>`+"\n", pg, i)
+			case 3:
+				fmt.Fprintf(&sb, `<iframe src="https://widgets.example.net/w/%d/%d"></iframe>`+"\n", pg, i)
+			case 4:
+				fmt.Fprintf(&sb, `<blockquote class="twitter-tweet"><p>tweet %d</p><a href="https://twitter.com/u%d/status/%d%06d">link</a></blockquote>`+"\n", i, pg, pg+1, i)
+			case 5:
+				fmt.Fprintf(&sb, `<object><param name="movie" value="http://www.youtube.com/v/ob%d_%d&hl=en&fs=1"><embed src="http://www.youtube.com/v/ob%d_%d&hl=en&fs=1" type="application/x-shockwave-flash"></object>`+"\n", pg, i, pg, i)
+			case 6:
+				fmt.Fprintf(&sb, `<iframe src="http://vimeo.example.org/not-vimeo/%d"></iframe><iframe src="//player.vimeo.com/video/%d%03d"></iframe>`+"\n", i, pg+5, i)
+			}
+		}
+		sb.WriteString("</div></body></html>")
+		out = append(out, GenDoc{Bytes: []byte(sb.String()), URL: fmt.Sprintf("http://example.com/embeds/%d", pg), Origin: fmt.Sprintf("embedpage:%d", pg), Features: []string{"embed-page"}, UTF8: true})
+	}
+	return out
+}
